@@ -14,6 +14,7 @@ pub mod c03;
 pub mod c04;
 pub mod c05;
 pub mod c06;
+pub mod c10;
 pub mod c11;
 pub mod c13;
 pub mod c14;
@@ -385,6 +386,7 @@ pub fn op_source(op: &ClientOp) -> String {
         ClientOp::Run { src, shake, json, wait } => format!("run(shake={shake},json={json},wait={wait})> {src}"),
         ClientOp::Vars { session } => format!("vars[{session}]"),
         ClientOp::Noise(n) => format!("noise {:?}", n),
+        ClientOp::WaitRun { nth } => format!("wait for run #{nth}"),
     }
 }
 
@@ -593,6 +595,7 @@ pub fn lookup(id: &str) -> Option<Box<dyn Property>> {
         "C04" => Some(Box::new(c04::C04)),
         "C05" => Some(Box::new(c05::C05)),
         "C06" => Some(Box::new(c06::C06)),
+        "C10" => Some(Box::new(c10::C10)),
         "C11" => Some(Box::new(c11::C11)),
         "C13" => Some(Box::new(c13::C13)),
         "C14" => Some(Box::new(c14::C14)),
